@@ -167,7 +167,16 @@ RULE = ('histories of 4-30 operations over up to 7 live Atoms and their Systems,
         'per-type assignment over new / existing key x dtype x trailing shape x one type / table; read -> write -> the same '
         'read for every read kind x write kind; atom types 0 / -1 / 0.5 through every write path; extension by nothing; the '
         'spellings of symbols / masses / pbc; ~200 refusals (every reason through several accessors). Entries using df, '
-        'len/str or index+a_id are run by the search only.')
+        'len/str or index+a_id are run by the search only. (g) round 4: the creation matrix (matrix_names, 110 histories of '
+        '~22 operations): every way of CREATING a property (constructor keyword, view[name] =, attribute set, prop(name, '
+        'value=), atoms_prop(name, value=), prop_atype table / one type, inheritance from a donor through extend) x a pool of '
+        '14 names (leading underscore(s), dunder-like, mangled-looking _Atoms__q, digit first, a-b / x.y (not identifiers), '
+        'substrings of the reserved keys, upper case, and natypes / df which every Atoms object already has as class '
+        'attributes - those not by attribute set, which is ordinary Python attribute assignment then) x full / scalar / one-row '
+        'values; then read back by prop(), prop(name), indexed; written again by attribute set and view set on the EXISTING '
+        'name and by an indexed prop; followed through atoms[...], extend, deepcopy, atoms_ix, df, len/str; the random '
+        'histories draw from p0..p4, _g, __d__, a-b. matrix_tables: df() / atoms_df(scale False / True / [keys]) on per-atom '
+        '(3,3) float, (2,3) int, (3,3) str properties with all components different, on the object, a slice and a system.')
 ASSUMPTIONS = [
     'numpy semantics used by Atoms/System are as transcribed in lean/Atomman/C06.lean (mini-numpy: basic slices are '
     'views, integer-list / boolean indexing, deepcopy, np.array(np.broadcast_to()), np.zeros copy; assignment '
@@ -202,7 +211,15 @@ TRUSTED = [
 ]
 
 
-KEYS = ['p0', 'p1', 'p2', 'p3', 'p4']
+# property names of the random histories: plain ones, and names a special case keyed on the spelling would single out
+# (leading underscore, dunder-like, not a Python identifier); every name is ONE token on the wire
+KEYS = ['p0', 'p1', 'p2', 'p3', 'p4', '_g', '__d__', 'a-b']
+# the name pool of the creation matrix (matrix_names): leading underscore(s), dunder-like, mangled-looking, digits first,
+# not identifiers, short names that are substrings of the reserved keys, upper case, and two names that every Atoms object
+# already has as a class attribute (`natypes`, `df`: legal property names through every route except attribute set,
+# which is then Python's own attribute assignment)
+NAMES = ['_g', '__h', '__d__', '_Atoms__q', '_0', 'a-b', '2x', 'x.y', 'a', 'po', 'typ', 'POS', 'natypes', 'df']
+CLASS_ATTRS = ('natypes', 'df')
 STRS = ['a', 'b', 'Fe', 'Al', 'xyz', 'Q', 'uvw', 'Cu', '']
 SYMS = ['Al', 'Fe', 'Cu', 'Ni', 'X']
 TRAILS = [[], [], [3], [3, 3]]
@@ -1483,6 +1500,8 @@ def correspond(ctx):
     # the accessor matrix first (fixed histories, a few operations each)
     nmat = 0
     for name, ops in matrix_histories(rng):
+        if name.startswith('names:'):       # the creation matrix: the model follows everything but the DataFrame / len / str reads
+            ops = [op for op in ops if op['op'] not in SEARCH_ONLY]
         if any(op['op'] in SEARCH_ONLY or op.get('aid') == 'both' for op in ops):
             continue        # DataFrames, len/str and the index+a_id refusal are not operations of the model
         nmat += 1
@@ -3046,6 +3065,106 @@ def matrix_histories(rng, refusals=True):
             out.append((f'sext:{d_as}:{scale}', [base, mksys, donor(2, ['p1']),
                                                  {'op': 'sext', 's': 's1', 'value': val, 'scale': scale, 'symbols': None, 'id': 3}]))
     out += matrix_extra(rng, base, mksys, box, donor)
+    out += matrix_names(rng)
+    out += matrix_tables(rng)
+    return out
+
+
+def matrix_names(rng):
+    """every way of CREATING a per-atom property crossed with the name pool NAMES: constructor keyword, `view[name] =`,
+    attribute set, `prop(name, value=)`, `System.atoms_prop(name, value=)`, `prop_atype` (table / one type), and
+    inheritance from a donor through `extend`; full-length, scalar and one-row values of int / float-vector / str dtype.
+    After the creation the property is read back through every observer (`prop()`, `prop(name)`, indexed), written again
+    through the two whole-column routes (attribute set and view set on the EXISTING name), and must follow the atoms
+    through `atoms[...]`, `extend`, `deepcopy`, `atoms_ix`, `df()`; the full state of every live object is compared after
+    every operation as in any other history."""
+    n = 5
+    out = []
+    kinds = [('i', []), ('f', [3]), ('s', []), ('f', []), ('b', [])]
+    box = [2.0, 0.0, 0.0, 1.0, 4.0, 0.0, 0.0, 0.0, 0.5, 1.0, 0.0, 0.0]
+    routes = ('ctor', 'view', 'attr', 'prop', 'sprop', 'patype-table', 'patype-one', 'extend-donor')
+    j = 0
+    for name in NAMES:
+        for route in routes:
+            if route == 'attr' and name in CLASS_ATTRS:
+                continue            # `atoms.df = ...` is ordinary attribute assignment (shadows the method): not a property
+            j += 1
+            cls, trail = kinds[j % len(kinds)]
+            if route.startswith('patype') and cls in ('s', 'b'):
+                cls, trail = 'f', [3]
+            shape = [[n] + trail, [], [1] + trail][(j // len(kinds)) % 3] if route in ('ctor', 'view', 'attr') else [n] + trail
+            if shape == [] and trail:
+                shape = [n] + trail
+            v = gen_lit(rng, cls, shape)
+            base = {'op': 'new', 'id': 0, 'atype': lit('i', [n], [1, 2, 1, 3, 2]), 'pos': gen_lit(rng, 'f', [n, 3]),
+                    'extra': [['p0', gen_lit(rng, 'i', [n])]]}
+            mksys = {'op': 'mksys', 'o': 'a0', 'id': 1, 'box': box, 'pbc': [True, False, True], 'symbols': ['Al', 'Cu', 'Ni']}
+            tgt = 'a0'
+            if route == 'ctor':
+                pre = [dict(base, extra=base['extra'] + [[name, v]]), mksys]
+            elif route in ('view', 'attr'):
+                pre = [base, mksys, {'op': 'setv', 'o': 'a0', 'key': name, 'val': v, 'via': route}]
+            elif route == 'prop':
+                pre = [base, mksys, {'op': 'pset', 'o': 'a0', 'key': name, 'ix': None, 'val': v}]
+            elif route == 'sprop':
+                pre = [base, mksys, {'op': 'spset', 's': 's1', 'key': name, 'ix': None, 'val': v, 'scale': False}]
+            elif route == 'patype-table':
+                pre = [base, mksys, {'op': 'patype', 'o': 'a0', 'key': name, 'val': gen_lit(rng, cls, [3] + trail), 't': None}]
+            elif route == 'patype-one':
+                pre = [base, mksys, {'op': 'patype', 'o': 'a0', 'key': name, 'val': gen_lit(rng, cls, trail), 't': 2}]
+            else:
+                donor = {'op': 'new', 'id': 2, 'atype': lit('i', [2], [2, 1]), 'pos': gen_lit(rng, 'f', [2, 3]),
+                         'extra': [[name, gen_lit(rng, cls, [2] + trail)], ['p0', gen_lit(rng, 'i', [2])]]}
+                pre = [base, donor, {'op': 'exta', 'o': 'a0', 'src': 'a2', 'id': 3},
+                       {'op': 'mksys', 'o': 'a3', 'id': 1, 'box': box, 'pbc': [True, False, True], 'symbols': ['Al', 'Cu', 'Ni']}]
+                tgt = 'a3'
+            m = n + 2 if tgt == 'a3' else n
+            again = gen_lit(rng, cls, [m] + trail)
+            reads = [{'op': 'pkeys', 'o': tgt}, {'op': 'pget', 'o': tgt, 'key': name, 'ix': None},
+                     {'op': 'pget', 'o': tgt, 'key': name, 'ix': ['L', [3, 1]]}]
+            rewrite = []
+            if name not in CLASS_ATTRS:
+                rewrite.append({'op': 'setv', 'o': tgt, 'key': name, 'val': again, 'via': 'attr'})
+            rewrite += [{'op': 'pget', 'o': tgt, 'key': name, 'ix': ['I', -1]},
+                        {'op': 'setv', 'o': tgt, 'key': name, 'val': gen_lit(rng, cls, [1] + trail), 'via': 'view'},
+                        {'op': 'pset', 'o': tgt, 'key': name, 'ix': ['S', 1, 4, 2], 'val': gen_lit(rng, cls, trail)}]
+            follow = [{'op': 'geti', 'o': tgt, 'ix': ['L', [3, 1]], 'id': 4}, {'op': 'pkeys', 'o': 'a4'},
+                      {'op': 'pget', 'o': 'a4', 'key': name, 'ix': None},
+                      {'op': 'exti', 'o': tgt, 'n': 2, 'id': 5}, {'op': 'pget', 'o': 'a5', 'key': name, 'ix': None},
+                      {'op': 'dcopy', 'o': tgt, 'id': 6}, {'op': 'pget', 'o': 'a6', 'key': name, 'ix': None},
+                      {'op': 'ixget', 's': 's1', 'ix': ['S', 1, 4, None], 'id': 7}, {'op': 'spkeys', 's': 's7'},
+                      {'op': 'spget', 's': 's7', 'key': name, 'ix': None},
+                      {'op': 'df', 'o': tgt}, {'op': 'ainfo', 'o': tgt}]
+            out.append((f'names:{route}:{name}', pre + reads + rewrite + follow))
+    return out
+
+
+def matrix_tables(rng):
+    """Atoms.df() / System.atoms_df() (every scale form) on properties with TWO trailing dimensions: a per-atom 3x3 tensor
+    with all nine components different (a transposed component order shows), a non-square (2, 3) one, a string-valued
+    (3, 3) one, next to scalars and vectors; read, written to, read again; on the object, a slice of it and a system."""
+    n = 4
+    box = [2.0, 0.0, 0.0, 1.0, 4.0, 0.0, 0.0, 0.0, 0.5, 1.0, 0.0, 0.0]
+    tens = lit('f', [n, 3, 3], [float(100 * i + 10 * j + k) / 4 for i in range(n) for j in range(3) for k in range(3)])
+    rect = lit('i', [n, 2, 3], [100 * i + 10 * j + k for i in range(n) for j in range(2) for k in range(3)])
+    strs = lit('s', [n, 3, 3], ['%s%d%d' % ('abcd'[i], j, k) for i in range(n) for j in range(3) for k in range(3)], 3)
+    out = []
+    for label, extra in (('square', [['p4', tens], ['p0', gen_lit(rng, 'i', [n])]]),
+                         ('rect', [['p1', gen_lit(rng, 'f', [n, 3])], ['p4', rect]]),
+                         ('str', [['p2', strs], ['p4', tens]])):
+        base = {'op': 'new', 'id': 0, 'atype': lit('i', [n], [1, 2, 1, 3]), 'pos': gen_lit(rng, 'f', [n, 3]), 'extra': extra}
+        mksys = {'op': 'mksys', 'o': 'a0', 'id': 1, 'box': box, 'pbc': [True, False, True], 'symbols': ['Al', 'Cu', 'Ni']}
+        tkey = 'p4'
+        cls = 'f' if label != 'rect' else 'i'
+        trail = [3, 3] if label != 'rect' else [2, 3]
+        out.append((f'tables:{label}', [
+            base, mksys, {'op': 'df', 'o': 'a0'}, {'op': 'sdf', 's': 's1', 'scale': False}, {'op': 'sdf', 's': 's1', 'scale': True},
+            {'op': 'sdf', 's': 's1', 'scale': ['pos']},
+            {'op': 'pset', 'o': 'a0', 'key': tkey, 'ix': ['I', 2], 'val': gen_lit(rng, cls, trail)},
+            {'op': 'df', 'o': 'a0'}, {'op': 'sdf', 's': 's1', 'scale': True},
+            {'op': 'geti', 'o': 'a0', 'ix': ['S', 1, 4, 2], 'id': 3}, {'op': 'df', 'o': 'a3'},
+            {'op': 'ixget', 's': 's1', 'ix': ['L', [3, 0]], 'id': 4}, {'op': 'sdf', 's': 's4', 'scale': False},
+            {'op': 'sdf', 's': 's4', 'scale': True}]))
     return out
 
 
